@@ -3,6 +3,13 @@
 .work/seed_matrix.json (tools/seed_matrix.py) and the confirm.txt written by tools/confirm_seed.sh"""
 import json, os, sys
 info = json.load(open(sys.argv[1]))
+# seeds that a later fix: commit made harmless (kept as recorded; on the repaired tree they are benign edits and every check must be silent on them)
+SUPERSEDED = {
+    'C11-r10A': 'confirmed at 759d357 (an fsync inserted between growing and remapping the file: when it fails the file is longer than the map and the next commit, deciding '
+                'from the file length, uses pages beyond the map).  Triage showed the unchanged tree has the same defect whenever the remap itself fails (F15, fixed in 65b378f: the '
+                'decision now uses the smaller of file length and mapped length); on the repaired tree a failed fsync at that place is repaired by the next commit, the demonstration '
+                'passes, and the change is a benign edit',
+}
 rnd = int(sys.argv[2])
 mat = json.load(open('/verif/.work/seed_matrix.json'))
 for seed, (summary, needs) in sorted(info.items()):
@@ -23,6 +30,9 @@ for seed, (summary, needs) in sorted(info.items()):
                 confirmed=dict(result=conf, how='tools/confirm_seed.sh: fresh scratch worktree of /repo HEAD; git apply patch.diff; cargo test --offline (whole suite) must pass; '
                                'demo/run.sh must exit non-zero with the change and zero without it; worktree removed afterwards'),
                 detected_by=det, detected_by_own_property=prop in det, violation_keys=keys)
+    sup = SUPERSEDED.get(seed)
+    if sup:
+        meta['superseded'] = sup
     json.dump(meta, open(d + '/meta.json', 'w'), indent=1)
     print(seed, 'own' if prop in det else ('other:' + ','.join(det) if det else 'NOT DETECTED'))
 
